@@ -4,7 +4,6 @@ CONSTANTS
   ValSet = {}
   SizeSet = {}
   CapSet = {}
-INVARIANTS TinyCounts
 CONSTRAINT Mark
 POSTCONDITION Accepted
 VIEW TView
